@@ -37,6 +37,7 @@ __all__ = [
     "translate",
 ]
 
+import errno
 import logging
 import os.path
 import re
@@ -565,8 +566,9 @@ class IgnoreFilterManager:
             self._path_filters[path] = None
         except OSError as e:
             # On Windows, opening a path that contains a symlink can fail with
-            # errno 22 (Invalid argument) when the symlink points outside the repo
-            if e.errno == 22:
+            # errno 22 (Invalid argument) when the symlink points outside the repo.
+            # A symlink that loops back on itself (ELOOP) has no .gitignore either.
+            if e.errno in (22, errno.ELOOP):
                 self._path_filters[path] = None
             else:
                 raise
